@@ -75,7 +75,8 @@ func (P) Rule() string {
 		"be MITM'd tunnels (m=1: the six points inside the decrypted tunnel, or the client silent after the 200), or be hijacked by a modifier; " +
 		"Close() may be called by up to 4 concurrent callers; the origin of one exchange per connection may FAIL (f=: connection closed " +
 		"before any answer, truncated response head, timeout — stub released with an error, or the raw origin misbehaving): the client is owed " +
-		"the proxy's complete 502. Distinct by hash of the op; non-trivial when Close() was called " +
+		"the proxy's complete 502; the request of the parked exchange may announce a body and send only part of it (u=: Content-Length, " +
+		"Expect: 100-continue, chunked stopped mid-chunk), the rest being sent, or the client leaving, only once the response has arrived. Distinct by hash of the op; non-trivial when Close() was called " +
 		"while at least one connection was parked inside an exchange, held before the spawn, or accepted late, or (race) when at least " +
 		"one exchange started"
 }
@@ -922,6 +923,9 @@ type client struct {
 	secHost string      // MITM'd tunnel: authority of the requests sent inside it
 	aborted int32       // the client gave up on purpose: read errors are not the proxy's fault
 	closed  int32       // the client closed its end on purpose
+	upIdx   int         // the response with this index answers a request whose body the client has not finished sending (-1: none)
+	upTail  []byte      // the rest of that body
+	upLeave bool        // having the response, the client leaves instead of sending the rest
 	failIdx int         // the response with this index answers an exchange whose origin failed: a 502 (-1: none)
 	rchunk  int         // slow reader: bytes per read (0 = unthrottled)
 	rpause  time.Duration
@@ -1113,7 +1117,7 @@ func (w *world) dial() (*client, error) {
 	if tc, ok := c.(*net.TCPConn); ok && w.sbuf > 0 {
 		tc.SetReadBuffer(w.sbuf << 10)
 	}
-	return &client{w: w, c: c, addr: c.LocalAddr().String(), k: -1, eof: make(chan struct{}), holdSeq: -1, failIdx: -1, tun: make(chan []byte, 256)}, nil
+	return &client{w: w, c: c, addr: c.LocalAddr().String(), k: -1, eof: make(chan struct{}), holdSeq: -1, failIdx: -1, upIdx: -1, tun: make(chan []byte, 256)}, nil
 }
 
 // evKey is the connection index if known, else a placeholder resolved when the log is rendered.
@@ -1223,7 +1227,19 @@ func (cl *client) reader() {
 			return
 		}
 		cl.w.log.add("resp:%s:%d", cl.key(), mark)
+		mine := int(atomic.LoadInt32(&cl.resps)) == cl.upIdx
 		atomic.AddInt32(&cl.resps, 1)
+		if mine {
+			// the response to the request whose body is still outstanding has arrived: a client told that the
+			// connection closes (or one that gives up the upload) leaves; otherwise it sends the rest
+			if mark == 1 || cl.upLeave {
+				cl.goneAway("tcl")
+			} else {
+				cl.w.log.add("snd:%s:t", cl.key())
+				cl.c.SetWriteDeadline(time.Now().Add(stepDeadline))
+				cl.c.Write(cl.upTail)
+			}
+		}
 	}
 }
 
@@ -1249,6 +1265,51 @@ func (cl *client) reqBytes(closeHdr bool) []byte {
 		s += "Connection: close\r\n"
 	}
 	return []byte(s + "\r\n")
+}
+
+// sendUpload: a request that announces a body and sends only part of it (event snd:k:u:<close>): mode 1 =
+// Content-Length 1000, 400 bytes sent; 2 = Expect: 100-continue, no body byte sent; 3 = chunked, stopped in the
+// middle of the first chunk. The rest is kept for after the response (reader).
+func (cl *client) sendUpload(mode int, closeHdr bool) error {
+	head := "POST http://" + cl.w.host + "/ HTTP/1.1\r\nHost: " + cl.w.host
+	if cl.secHost != "" {
+		head = "POST / HTTP/1.1\r\nHost: " + cl.secHost
+	}
+	head += "\r\nX-Conn: " + cl.addr + "\r\nX-Seq: " + strconv.Itoa(cl.seq) + "\r\n"
+	if closeHdr {
+		head += "Connection: close\r\n"
+	}
+	body := bytes.Repeat([]byte{'u'}, 1000)
+	var now []byte
+	switch mode {
+	case 2:
+		head += "Content-Length: 1000\r\nExpect: 100-continue\r\n\r\n"
+		now, cl.upTail = nil, body
+	case 3:
+		head += "Transfer-Encoding: chunked\r\n\r\n"
+		now = append([]byte("3e8\r\n"), body[:400]...)
+		cl.upTail = append(append([]byte{}, body[400:]...), "\r\n0\r\n\r\n"...)
+	default:
+		head += "Content-Length: 1000\r\n\r\n"
+		now, cl.upTail = body[:400], body[400:]
+	}
+	rc := 0
+	if closeHdr {
+		rc = 1
+	}
+	cl.upIdx = int(atomic.LoadInt32(&cl.resps))
+	// will the handler wait for the rest? net/http's request body Close() reads it to the end — except for a
+	// body without trailer (not chunked) on a request that said Connection: close ("no point in reading to EOF")
+	drains := 1
+	if closeHdr && mode != 3 {
+		drains = 0
+	}
+	cl.w.log.add("snd:%s:u:%d:%d", cl.key(), rc, drains)
+	cl.sent(false)
+	cl.seq++
+	cl.c.SetWriteDeadline(time.Now().Add(stepDeadline))
+	_, err := cl.c.Write(append([]byte(head), now...))
+	return err
 }
 
 func (cl *client) sendFull(closeHdr bool) error {
@@ -1300,6 +1361,7 @@ type scenario struct {
 	nclose int // cl: number of concurrent callers of Close() (default 1)
 	rchunk int // rk: KiB the clients of the parked exchanges read at a time (0 = as fast as they can)
 	rpause int // rp: µs they pause between two reads
+	upload []int // u: per connection, the parked exchange's request announces a body and sends only part of it (1 Content-Length, 2 Expect: 100-continue, 3 chunked; +3: the client leaves after the response instead of sending the rest)
 	fault  []int // f: per connection, origin fault on one of its exchanges (0 none, 1 refused/reset, 2 truncated head, 3 timeout)
 	raw    bool // rw=1: the proxy serves the accepted *net.TCPConn itself; only modifiers and clients are observed
 }
@@ -1379,6 +1441,17 @@ func parseScn(op string) (*scenario, bool) {
 				return nil, false
 			}
 			sc.order = v
+		case "u":
+			v, ok := parseInts(kv[1])
+			if !ok {
+				return nil, false
+			}
+			for _, x := range v {
+				if x > 6 {
+					return nil, false
+				}
+			}
+			sc.upload = v
 		case "f":
 			v, ok := parseInts(kv[1])
 			if !ok {
@@ -1485,6 +1558,26 @@ func parseScn(op string) (*scenario, bool) {
 	}
 	if sc.fault == nil {
 		sc.fault = make([]int, n)
+	}
+	if sc.upload == nil {
+		sc.upload = make([]int, n)
+	}
+	if len(sc.upload) != n {
+		return nil, false
+	}
+	for i, u := range sc.upload {
+		if u == 0 {
+			continue
+		}
+		// the stub round tripper answers from the head alone; the real transport would first upload the body
+		if sc.real || sc.stall > 0 || sc.rchunk > 0 {
+			return nil, false
+		}
+		switch sc.pts[i] {
+		case "reqmod", "rt", "resmod", "write":
+		default:
+			return nil, false
+		}
 	}
 	if len(sc.x) != n || len(sc.q) != n || len(sc.s) != n || len(sc.order) != n || len(sc.fault) != n {
 		return nil, false
@@ -1784,7 +1877,14 @@ func runScenario(sc *scenario) (trace []string, v verdict, counted map[int]bool)
 				return w.log.snapshot(), v, counted
 			}
 		default:
-			if err := cl.sendFull(sc.q[k]); err != nil {
+			var err error
+			if u := sc.upload[k]; u > 0 {
+				cl.upLeave = u > 3
+				err = cl.sendUpload((u-1)%3+1, sc.q[k])
+			} else {
+				err = cl.sendFull(sc.q[k])
+			}
+			if err != nil {
 				v.set("c07:harness", "send: %v", err)
 				return w.log.snapshot(), v, counted
 			}
@@ -2078,7 +2178,7 @@ func judge(trace []string) (v verdict, early bool) {
 		case "snd":
 			if e.arg == "c" {
 				c.kinds = append(c.kinds, true)
-			} else if strings.HasPrefix(e.arg, "f") {
+			} else if strings.HasPrefix(e.arg, "f") || strings.HasPrefix(e.arg, "u") {
 				c.kinds = append(c.kinds, false)
 			}
 		case "cresp":
@@ -2261,6 +2361,11 @@ func (e *ex) do(op string) core.Result {
 		}
 		if sc.rchunk > 0 {
 			core.Count("slow-reader")
+		}
+		for k, u := range sc.upload {
+			if u > 0 {
+				core.Count(fmt.Sprintf("open-request-body:%s:%d", sc.pts[k], u))
+			}
 		}
 		for k, f := range sc.fault {
 			if f > 0 {
@@ -2695,6 +2800,60 @@ func faultGrid(emit func(ops []string)) {
 	emit([]string{scnOp([]string{"rt"}, []int{1}, []int{0}, []int{0}, []int{0}, 64) + " f=2 m=1"})
 }
 
+// uploadScn: exchanges whose REQUEST BODY is incomplete when the response is ready × the progress points of an
+// exchange × shutdown: the client of the parked exchange announced Content-Length 1000 and sent 400 bytes, or
+// holds the whole body back behind Expect: 100-continue, or stopped in the middle of a chunk; the stub round
+// tripper answers without reading the body. Having the complete response the client sends the rest (keep-alive
+// response) or leaves (response marked close; or u>3: it gives the upload up in any case).
+func uploadScn(r *core.Rand) string {
+	n := r.Range(1, 3)
+	pool := []string{"reqmod", "rt", "resmod", "write", "idle", "head"}
+	pts := make([]string, n)
+	x, q, s, u := make([]int, n), make([]int, n), make([]int, n), make([]int, n)
+	for i := range pts {
+		pts[i] = pool[r.Intn(len(pool))]
+		if r.Chance(1, 3) {
+			x[i] = r.Range(1, 2)
+		}
+		if r.Chance(1, 6) {
+			q[i] = 1
+		}
+		if r.Chance(1, 6) {
+			s[i] = 1
+		}
+	}
+	k := r.Intn(n)
+	pts[k] = pool[r.Intn(4)]
+	for i := range pts {
+		switch pts[i] {
+		case "reqmod", "rt", "resmod", "write":
+			if i == k || r.Chance(1, 2) {
+				u[i] = r.Range(1, 6)
+			}
+		}
+	}
+	ps := perms(n)
+	op := scnOp(pts, x, q, s, ps[r.Intn(len(ps))], []int{0, 64, 5000, 70000}[r.Intn(4)]) + " u=" + join(u)
+	switch r.Intn(5) {
+	case 0:
+		op += " m=1"
+	case 1:
+		op += " cl=2"
+	}
+	return op
+}
+
+func uploadGrid(emit func(ops []string)) {
+	for _, p := range []string{"reqmod", "rt", "resmod", "write"} {
+		for u := 1; u <= 3; u++ {
+			emit([]string{scnOp([]string{p}, []int{0}, []int{0}, []int{0}, []int{0}, 64) + fmt.Sprintf(" u=%d", u)})
+		}
+		emit([]string{scnOp([]string{p}, []int{1}, []int{0}, []int{0}, []int{0}, 64) + fmt.Sprintf(" u=%d", 4+len(p)%3)})
+	}
+	emit([]string{scnOp([]string{"resmod"}, []int{1}, []int{0}, []int{0}, []int{0}, 64) + " u=2 m=1"})
+	emit([]string{scnOp([]string{"rt"}, []int{0}, []int{1}, []int{0}, []int{0}, 64) + " u=1 rw=1"})
+}
+
 // slowScn: clients that never stop reading but drain slower than the proxy writes (rk KiB every rp µs), a
 // multi-MiB response, shutdown in the middle of the exchange. raw: the proxy is handed the accepted
 // *net.TCPConn itself (whatever it does to real TCP sockets — socket options at close, linger — happens),
@@ -2924,6 +3083,10 @@ func (P) Gen(r *core.Rand, tier string, emit func(ops []string)) {
 		for i := 0; i < 800; i++ {
 			emit([]string{faultScn(r)})
 		}
+		uploadGrid(emit)
+		for i := 0; i < 600; i++ {
+			emit([]string{uploadScn(r)})
+		}
 		return
 	}
 	// quick: exhaustive for 1 and 2 connections (6 + 36·2 scenarios), then a seeded sample
@@ -2965,6 +3128,10 @@ func (P) Gen(r *core.Rand, tier string, emit func(ops []string)) {
 	faultGrid(emit)
 	for i := 0; i < 40; i++ {
 		emit([]string{faultScn(r)})
+	}
+	uploadGrid(emit)
+	for i := 0; i < 30; i++ {
+		emit([]string{uploadScn(r)})
 	}
 	// one slow-client scenario (≈ 7–9 s): clients stalled during the drain phase, bodies ≫ socket buffers
 	emit([]string{stallScn(r, r.Range(6500, 8500), r.Chance(1, 2), false)})
